@@ -70,6 +70,15 @@ def c19_a(ctx: Ctx):
                 e2, _ = ctx.effects.transitive(tg)
                 if any(x.kind in common.MUTATING_KINDS for x in e2) or (isinstance(c.func, ast.Attribute) and c.func.attr == "write"):
                     out.append(ctx.viol(R, f, c, f"{canon(c)[:50]} runs for existing projects too: init_project is not idempotent"))
+    # directory creation inside init_project tolerates a directory that is already there (a half-finished earlier attempt, a concurrent init)
+    for e in ctx.effects.direct(f):
+        if e.kind == "mkdir":
+            v = kwarg(e.node, "exist_ok")
+            if ctx.fold(v, f) is True if v is not None else False:
+                out.append(ctx.ok(R, f, e.node, f"{e.prim}(..., exist_ok=True)", construct=IP + "|mkdir-tolerant"))
+            else:
+                out.append(ctx.viol(R, f, e.node, f"init_project creates the configuration directory with {e.prim} without exist_ok=True: after an attempt that got as far as creating "
+                                    "'.signac' but not the config file (write error, interrupt, concurrent init) every later init_project fails with FileExistsError", construct=IP + "|mkdir-tolerant"))
     wr = [c for c in body_nodes(f) if isinstance(c, ast.Call) and isinstance(c.func, ast.Attribute) and c.func.attr == "write" and isinstance(c.func.value, ast.Name)]
     for c in wr:
         d = common.reaching_def(ctx, f, c.func.value.id, c)
@@ -124,7 +133,7 @@ def c19_b(ctx: Ctx):
         t = canon(v).replace(" ", "") if v is not None else ""
         if ("os.pardir" in t or "os.path.dirname(" in t or "'..'" in t) and ".end()]" in t:
             out.append(ctx.ok(R, f, c, "the project is searched from the parent of the matched job directory"))
-        elif ".end()]" in t or "job_path" in t:
+        elif ".end()]" in t:
             out.append(ctx.viol(R, f, c, f"the project is searched from {canon(a)}, the job directory itself: a project nested inside the job directory is found instead of the project whose workspace holds the job"))
         else:
             out.append(ctx.inc(R, f, c, "get_project argument not recognised: " + t[:60]))
@@ -141,7 +150,8 @@ def c19_b(ctx: Ctx):
             out.append(ctx.viol(R, f, c, "the path is not checked for existence (as given) before an id is extracted from it: a non-existent path below an existing job directory resolves to that job"))
     # the job directory is located by the *position* of the last match, never by searching the id text again
     ts = [c for c in body_nodes(f) if isinstance(c, ast.Call) and isinstance(c.func, ast.Attribute) and c.func.attr in ("partition", "split", "find", "index", "rpartition", "rsplit", "rfind", "rindex")
-          and c.args and "job_id" in names_in(c.args[0])]
+          and c.args and not isinstance(c.args[0], ast.Constant) and "os.sep" not in canon(c.args[0]) and (names_in(c.args[0]) - set(f.params))
+          and (names_in(c.func.value) & set(f.params))]
     first = [c for c in ts if c.func.attr in ("partition", "split", "find", "index")]
     if first:
         out.append(ctx.viol(R, f, first[0], f"the job directory is derived with {canon(first[0])[:40]}, i.e. from the first occurrence of the id text: when a nested project holds a job with the "
@@ -154,7 +164,7 @@ def c19_b(ctx: Ctx):
     ret = [n for n in body_nodes(f) if isinstance(n, ast.Return) and isinstance(n.value, ast.Call)]
     for r in ret:
         idv = kwarg(r.value, "id_")
-        if idv is not None and "match.group(" in canon(common.inline_at(ctx, f, idv, r)):
+        if idv is not None and ".group(" in canon(common.inline_at(ctx, f, idv, r)):
             out.append(ctx.ok(R, f, r, "the returned job carries the matched id"))
     return out
 
@@ -164,6 +174,39 @@ def c19_c(ctx: Ctx):
     """Discovery never resolves symlinks; upward search; search=False does not walk."""
     R = "C19-c"
     out = []
+    # the upward walk starts from an absolute path: os.path.dirname() of a relative path ends at '' (the current directory), not at the file system root
+    lf = ctx.fn(LOC)
+    walks = []
+    for w in [n for n in body_nodes(lf) if isinstance(n, ast.While)]:
+        for (cmpn, b) in common.pfind("os.path.dirname(V) == V", w) + [(x, {"V": x.comparators[0]}) for x in ast.walk(w) if isinstance(x, ast.Compare) and len(x.ops) == 1
+                                                                      and isinstance(x.left, ast.NamedExpr) and common.pmatch("os.path.dirname(V)", x.left.value) is not None
+                                                                      and canon(common.pmatch("os.path.dirname(V)", x.left.value)["V"]) == canon(x.comparators[0])]:
+            if isinstance(b["V"], ast.Name):
+                walks.append((w, b["V"].id))
+    if not walks:
+        out.append(ctx.inc(R, lf, lf.node, "no upward walk (dirname(p) == p termination) found in _locate_config_dir", construct=LOC + "|absolute-start"))
+    for w, v in walks:
+        first = w.body[0] if w.body else w
+        defs = [d for d in common.reaching_defs(ctx, lf, v, first) if not (isinstance(d, ast.AST) and any(d is x for x in ast.walk(w)))]
+        k = f"{LOC}|absolute-start|L{[x for x in body_nodes(lf) if isinstance(x, ast.While)].index(w)}"
+        def _abs(d, depth=0):
+            if isinstance(d, ast.Call) and common.ext_name(ctx, lf, d) == "os.path.abspath":
+                return True
+            if isinstance(d, ast.Name) and depth < 3:
+                # a local that is itself bound (only) to an absolute path
+                ds = [n.value for n in body_nodes(lf) if isinstance(n, ast.Assign) and any(isinstance(t, ast.Name) and t.id == d.id for t in n.targets)]
+                return bool(ds) and d.id not in lf.params and all(_abs(x, depth + 1) for x in ds)
+            return False
+        bad = [d for d in defs if not _abs(d)]
+        if defs and not bad:
+            out.append(ctx.ok(R, lf, w, f"the upward walk over `{v}` starts from os.path.abspath(...)", construct=k))
+        elif bad:
+            d = bad[0]
+            out.append(ctx.viol(R, lf, w, f"the upward walk over `{v}` can start from {canon(d)[:50] if isinstance(d, ast.AST) else d}, which is not absolute: for a relative query path "
+                                "os.path.dirname() ends at '' (the current directory) instead of the file system root, so a project above the current directory is not found and '..' "
+                                "queries from inside a nested project resolve to the nested project", construct=k))
+        else:
+            out.append(ctx.inc(R, lf, w, f"start of the upward walk over `{v}` not determined", construct=k))
     for q in (LOC, GP, GJ, "signac._config:_get_project_config_fn"):
         f = ctx.fn(q)
         mt = [c for c in body_nodes(f) if isinstance(c, ast.Call) and common.ext_name(ctx, f, c) in ("os.path.ismount",)]
